@@ -26,7 +26,7 @@ LABEL_FLOORS = {'nondefault_layout': 0.5, 'some_skipped': 0.3, 'some_scales': 0.
 
 def plan(tier):
     if tier == 'quick':
-        return [{'n': 200} for _ in range(8)]
+        return [{'n': 200} for _ in range(16)]
     units = [{'n': 60, 'o_dim': o, 'ri_dim': ri, 'J': J} for o, ri in LAYOUTS for J in (1, 2, 3)]
     units += [{'n': 4000} for _ in range(16)]
     return units
